@@ -13,6 +13,8 @@ CHECKS['C10'] = dict(text='Bounded symbolic execution (z3) of the MIR of shell::
              note='expand_env is driven directly; literal characters exclude quotes/backquote/backslash/parentheses/digits (other word kinds). Known finding: values containing `$` are rescanned (fix-point loop). Every stub-free ok-leaf is validated against the native expand_env.', design='6/C10')
 CHECKS['C11'] = dict(text='Bounded symbolic execution (z3) of the MIR of do_command_substitution (both spellings, embedded and whole-token, two substitutions, unparsable inner command) with the real from_line for the inner command and a capture stub whose stdout is symbolic (<= 3, thorough 4 arbitrary characters incl. newline) plus <= 2 symbolic characters on each side; oracle: head + output-without-trailing-newlines + tail, exactly one invocation per substitution, termination.',
              note='run_pipeline(capture) is stubbed; do_command_substitution is driven directly on one token. Every ok-leaf is validated by running the native function with a helper program that prints the model\'s output bytes. Known finding: two $(...) in one word.', design='6/C11')
+CHECKS['C12'] = dict(text='Bounded symbolic execution (z3) of the MIR of expand_brace (brace words of <= 5, thorough 6 fully symbolic characters against a reference brace expander; malformed words: crash/hang freedom only), expand_brace_range (symbolic digits and signs, optional step, symbolic text around the braces, i32 extremes as directed cases; arithmetic-sequence reference), expand_home (symbolic HOME) and expand_glob (glob stub returning up to 2/3 symbolic names incl. hidden and blank-containing ones), each on a token list with neighbours so that word order is part of the oracle.',
+             note='Passes are driven directly; the glob matcher itself is outside (stub). Every brace/range/tilde leaf is validated against the native function.', design='6/C12')
 NA = {}
 ALL = ['C%02d' % i for i in range(1, 21)]
 m = dict(version=1, setup_cmd='./setup.sh',
